@@ -216,7 +216,27 @@ def sk6(iso, L, cfg, hook=_nohook, fp=None):
     return {'files': {'/HUGE.;1': L[0], '/AAA.;1': L[1]}, 'dirs': [], 'steps': 2}
 
 
-SKELETONS = {'sk1': sk1, 'sk2': sk2, 'sk3': sk3, 'sk4': sk4, 'sk5': sk5, 'sk6': sk6}
+def sk7(iso, L, cfg, hook=_nohook, fp=None):
+    """links inside one directory: add AAA, BBB; link AAA as /CCC (+ Joliet/UDF links); remove the ORIGINAL name (a removal that frees
+    no space but changes which name reaches the data first); add ZZZ; remove the link to BBB's UDF/Joliet twin   (3 lengths)"""
+    fp = fp or h.InFP()
+    iso.add_fp(fp, L[0], **fkw(cfg, 'AAA')); hook(0)
+    iso.add_fp(fp, L[1], **fkw(cfg, 'BBB')); hook(1)
+    iso.add_hard_link(iso_old_path='/AAA.;1', iso_new_path='/CCC.;1', rr_name='ccc' if cfg['rr'] else None); hook(2)
+    n = 3
+    if cfg['joliet']:
+        iso.add_hard_link(iso_old_path='/AAA.;1', joliet_new_path='/ccc'); hook(n); n += 1
+    if cfg['udf']:
+        iso.add_hard_link(iso_old_path='/AAA.;1', udf_new_path='/ccc'); hook(n); n += 1
+    iso.rm_hard_link(iso_path='/AAA.;1'); hook(n); n += 1
+    if cfg['joliet']:
+        iso.rm_hard_link(joliet_path='/aaa'); hook(n); n += 1
+    if cfg['udf']:
+        iso.rm_hard_link(udf_path='/aaa'); hook(n); n += 1
+    return {'files': {'/BBB.;1': L[1], '/CCC.;1': L[0]}, 'dirs': [], 'steps': n}
+
+
+SKELETONS = {'sk1': sk1, 'sk2': sk2, 'sk3': sk3, 'sk4': sk4, 'sk5': sk5, 'sk6': sk6, 'sk7': sk7}
 
 
 # ---- object collection (what occupies which sectors) ----------------------------------------------
@@ -262,6 +282,8 @@ def collect_spans(iso):
             sp.append((nm + '.dir:' + repr(d.file_ident), d.extent_location(), d.extent_location() + h.cdiv(d.data_length, lbs)))
     seen = set()
     for blk in iso.pvd.rr_ce_blocks:
+        if blk.extent_location() < 0:
+            continue      # a block object that no record references (e.g. the ER area tracked at open): nothing is stored for it
         sp.append(('ce_block', blk.extent_location(), blk.extent_location() + 1))
     rr0 = iso.pvd.root_directory_record().children[0].rock_ridge
     if rr0 is not None and rr0.dr_entries.ce_record is not None:
